@@ -98,6 +98,7 @@ def _check_all(ctx, part, nodes, model, consistent, totals, t, op):
         if not consistent.get(tid):
             continue
         lc = part.leaf_counts(tid)
+        lc = None if lc is None else [int(v) for v in lc]
         if lc is None or sum(lc) != totals[tid]:
             ctx.violation("conservation", "C08:leaf_total",
                           f"op {t} {op[0]}: leaf counts of id {tid!r} sum to {None if lc is None else sum(lc)}, {totals[tid]} points were filled since its last reset")
@@ -161,7 +162,7 @@ def run(case, ctx):
             filled_ids.add(tid)
             ctx.state(d, min(len(leaves), 12), op[0], known, reset)
             if op[0] == "refill_build":
-                lc_b, lc_t = part.leaf_counts("build"), part.leaf_counts(tid)
+                lc_b, lc_t = [int(v) for v in part.leaf_counts("build")], [int(v) for v in part.leaf_counts(tid)]
                 if consistent["build"] and totals["build"] == len(data) and lc_b != lc_t:
                     ctx.violation("refill", "C08:refill_reproduces_build",
                                   f"op {t}: filling the build data under id {tid!r} gives leaf counts {lc_t}, build gave {lc_b}")
